@@ -53,7 +53,7 @@ def run(ctx):
     for w, off in ((0, 0), (5, 0)):
         if not ctx.want("sim"):
             continue
-        sim = ctx.tlc("db", "Counters", "SIM_cnt.cfg", simulate=(3 if q else 150), depth=6 * d, workers=4,
+        sim = ctx.tlc("db", "Counters", "SIM_cnt.cfg", simulate=(3 if q else 60), depth=6 * d, workers=4,
                       constants={"MaxOps": d, "W": w, "TOff": off}, timeout=(600 if q else 3000))
         ctx.account(sim)
         behs += sim.emitted
